@@ -191,6 +191,10 @@ def check_tree(n, m, acc):
 # keys that are free of one separator but contain another: the same flat key string then means
 # different things under different separators ("x/y.a" is x/y -> a under "." and x -> y.a under "/")
 KEYS_X = ("x", "a", "x/y", "y.a", "x__y", "y/a")
+# names that touch the separator's own characters or the usual escape / padding characters: a
+# leading "_" next to the "__" separator (the flat key then holds a run of three), leading and
+# trailing blanks, a trailing backslash, a lone backslash
+KEYS_Y = ("_id", "u", " b", "b ", "c\\", "\\")
 
 
 class Field(str):
@@ -219,6 +223,38 @@ def cross_separator_trees():
     return out
 
 
+def awkward_name_trees():
+    out = []
+    for n in (1, 2):
+        out += [(n, m) for m in trees(n, 3, KEYS_Y)]
+    out += [(3, m) for m in trees(3, 2, KEYS_Y[:4])]
+    return out
+
+
+def mapping_type_cases(acc):
+    """The flat mapping handed in is an OrderedDict (and the expected nested mapping is built from
+    OrderedDicts): the result must equal it for EVERY order of the flat keys - plain dict
+    equality, whatever mapping type comes back."""
+    import collections
+    OD = collections.OrderedDict
+    nested = OD([("a", OD([("b", 1), (optional("c"), 2)])), ("d", OD([("e", OD([("f", 3)]))])), ("g", 4)])
+    plain = {"a": {"b": 1, optional("c"): 2}, "d": {"e": {"f": 3}}, "g": 4}
+    for sep in SEPS:
+        flat = list(flatten(plain, sep).items())
+        for perm in itertools.permutations(flat):
+            acc.count("cases")
+            acc.count("ordered_mapping_cases")
+            try:
+                got = rollout(OD(perm), separator=sep)
+            except Exception as e:  # noqa: BLE001
+                got = e
+            if not (isinstance(got, dict) and got == nested and nested == got and same(got, plain)):
+                acc.violation("C18|rollout-of-an-ordered-mapping-differs",
+                              {"flat": safe_repr(OD(perm), 300), "separator": sep, "got": safe_repr(got, 300),
+                               "mapping_type": True})
+                return
+
+
 def worker(shard, nshards, tier, seed):
     acc = Acc()
     T = tree_list(tier)
@@ -229,6 +265,11 @@ def worker(shard, nshards, tier, seed):
         for n, m in X + X[::-1]:
             acc.count("cross_separator_trees")
             check_tree(n, m, acc)
+        mapping_type_cases(acc)
+    Y = awkward_name_trees()
+    for i in range(shard, len(Y), nshards):
+        acc.count("awkward_name_trees")
+        check_tree(Y[i][0], Y[i][1], acc)
     F = str_subclass_trees()
     for i in range(shard, len(F), nshards):
         acc.count("str_subclass_key_trees")
@@ -274,5 +315,8 @@ def _tup(x):
 
 def replay(case):
     acc = Acc()
+    if case.get("mapping_type"):
+        mapping_type_cases(acc)
+        return list(acc.viol)
     check_tree(case["leaves"], _tup(case["tree"]), acc)
     return list(acc.viol)
